@@ -36,9 +36,12 @@ theorem callF_def (r : Rec) (fd : FuncDef) (args : List Val) : callF r fd args =
     | error e => rfl
     | ok x => obtain ⟨e, fl⟩ := x; cases fl <;> rfl
 
-/-- the simp set of the symbolic execution (calls are NOT unfolded: give `callF_def` or a lemma about the call) -/
+/-- the simp set of the symbolic execution (calls are NOT unfolded: give `callF_def` or a lemma about the call).
+`-implicitDefEqProofs`: every unfolding step of the interpreter is recorded in the proof term; otherwise the kernel has
+to re-discover the whole symbolic execution as one definitional-equality problem (exponential in the number of
+statements of a body). -/
 macro "ppsimp" "[" ls:Lean.Parser.Tactic.simpLemma,* "]" : tactic =>
-  `(tactic| simp +decide only [execStmtF, execF, eval_succ, exec_succ, call_succ, evalF, lookup, bind_ok, bind_err, pure_eq,
+  `(tactic| simp -implicitDefEqProofs +decide only [execStmtF, execF, eval_succ, exec_succ, call_succ, evalF, lookup, bind_ok, bind_err, pure_eq,
       throw_eq, Target.toExpr, getAttr_obj, getAttr_enum_value, getAttr_encSeat_value, meth_obj, index_dict,
       truthy_bool, asInt_int, assignToF, assignAllF, mutF, setField, update, callMethod, bindParams, cmpF, mapR,
       optIntF, binopVal, Option.map, Option.getD_some, ↓reduceIte, reduceIte, Option.isNone_some, Option.isNone_none,
